@@ -879,3 +879,115 @@ Example C09_items_equal_gen_u_example :
   items_equal_gen_u 20 (ex_note_u (B "https://example.com/users/%41lice")) (ex_note_u (B "https://example.com/users/%2541lice")) = Ok false /\
   sem_iris_contains_u gen_itemseq_fns (Some [B "http://[fe80::1%25eth0]:8080/a"]) (IIri false (B "HTTP://[FE80::1%25ETH0]:8080/a/")) = Ok true.
 Proof. repeat split; vm_compute; reflexivity. Qed.
+
+(* ==================================================================================================================
+   ---- lists with a repeated member (builder b58) ----
+   "changing ... any one property of the object core ... makes a copy unequal to the original", over "lists of
+   objects".  ItemCollection.Equals compared the lengths and then asked, for every member of the receiver, whether the
+   argument CONTAINS an equal member: ItemCollection{a, a}.Equals(ItemCollection{a, b}) was true (the other order
+   false), so a copy whose to / cc / tag / attachment list was changed from [a a] to [a b] equalled the original.
+   The repaired code matches the members one to one (a []bool of used positions: Model/Equal.v all_matched /
+   find_unused, the same number of member comparisons in the worst case); Proofs/EqualP.v all_matched_fresh says it
+   without positions (all_removed: the matched member is taken out of the other list).  The statements hold for every
+   reflexive IRI comparison (module ElGP of Proofs/EqualListP.v): the plain instance, then the wide one. *)
+From AP.Proofs Require Import EqualListP.
+
+(* ItemsEqual on two lists (value or pointer form, not the nil list): equal lengths and a one-to-one matching of the
+   members, each member of the first list with the first member of the second not matched before that equals it *)
+Theorem C09_list_matching : forall p l q l',
+  ieq (IItems p (Some l)) (IItems q (Some l'))
+  = if Nat.eqb (length l') (length l) then all_removed ieq l l' else Ok false.
+Proof. exact ieq_lists. Qed.
+Theorem C09_list_matching_positions : forall rec i w,
+  all_matched rec i w (repeat false (length w)) = all_removed rec i w.
+Proof. exact all_matched_fresh. Qed.
+
+(* reflexivity is kept on lists, repeated members or not (an instance of C09_refl, which keeps its statement) *)
+Theorem C09_list_refl : forall p q l, ieq (IItems p (Some l)) (IItems q (Some l)) = Ok true.
+Proof. exact ieq_list_refl. Qed.
+
+(* FOR ALL a, b that ItemsEqual tells apart: [a a] / [a b] and [a b a] / [a b b] are unequal in BOTH argument orders *)
+Theorem C09_list_repeated_member : forall p q a b,
+  ieq a b = Ok false -> ieq b a = Ok false ->
+  ieq (IItems p (Some [a; a])) (IItems q (Some [a; b])) = Ok false /\
+  ieq (IItems p (Some [a; b])) (IItems q (Some [a; a])) = Ok false /\
+  ieq (IItems p (Some [a; b; a])) (IItems q (Some [a; b; b])) = Ok false /\
+  ieq (IItems p (Some [a; b; b])) (IItems q (Some [a; b; a])) = Ok false.
+Proof. exact ieq_repeated_member. Qed.
+
+(* a member that no member of the other list equals makes the lists unequal, wherever it stands *)
+Theorem C09_list_member_without_partner : forall p q l1 x l2 l',
+  (forall m, In m l' -> ieq m x = Ok false) ->
+  ieq (IItems p (Some (l1 ++ x :: l2))) (IItems q (Some l')) = Ok false.
+Proof. exact ieq_list_member_without_partner. Qed.
+
+(* the clause on an object: a list-valued property of the core changed from [a a] to [a b], or back *)
+Theorem C09_object_repeated_member : forall f p k fs q k' gs a b,
+  k <> KLink -> get_str F_Type fs = get_str F_Type gs -> In (CItems f) object_cmps ->
+  ieq a b = Ok false -> ieq b a = Ok false ->
+  (get_items f fs = Some [a; a] -> get_items f gs = Some [a; b] -> ieq (IObj p k fs) (IObj q k' gs) = Ok false) /\
+  (get_items f fs = Some [a; b] -> get_items f gs = Some [a; a] -> ieq (IObj p k fs) (IObj q k' gs) = Ok false).
+Proof. exact ieq_object_repeated_member. Qed.
+
+(* the wide instance *)
+Theorem C09_list_repeated_member_u : forall p q a b,
+  ieq_u a b = Ok false -> ieq_u b a = Ok false ->
+  ieq_u (IItems p (Some [a; a])) (IItems q (Some [a; b])) = Ok false /\
+  ieq_u (IItems p (Some [a; b])) (IItems q (Some [a; a])) = Ok false /\
+  ieq_u (IItems p (Some [a; b; a])) (IItems q (Some [a; b; b])) = Ok false /\
+  ieq_u (IItems p (Some [a; b; b])) (IItems q (Some [a; b; a])) = Ok false.
+Proof. exact (ElGP.ieq_repeated_member iri_equ iri_equ_refl). Qed.
+Theorem C09_list_matching_u : forall p l q l',
+  ieq_u (IItems p (Some l)) (IItems q (Some l'))
+  = if Nat.eqb (length l') (length l) then all_removed ieq_u l l' else Ok false.
+Proof. exact (ElGP.ieq_lists iri_equ). Qed.
+Theorem C09_object_repeated_member_u : forall f p k fs q k' gs a b,
+  k <> KLink -> get_str F_Type fs = get_str F_Type gs -> In (CItems f) object_cmps ->
+  ieq_u a b = Ok false -> ieq_u b a = Ok false ->
+  (get_items f fs = Some [a; a] -> get_items f gs = Some [a; b] -> ieq_u (IObj p k fs) (IObj q k' gs) = Ok false) /\
+  (get_items f fs = Some [a; b] -> get_items f gs = Some [a; a] -> ieq_u (IObj p k fs) (IObj q k' gs) = Ok false).
+Proof. exact (ElGP.ieq_object_repeated_member iri_equ iri_equ_refl). Qed.
+
+(* non-vacuity, and the witness on the code before the repair (every other repair in place: cfg_list_contains_pinned) *)
+Definition ex_to (l : list item) : fields := [(F_ID, FStr ex_alice); (F_Type, FStr (B "Note")); (F_To, FItems (Some l))].
+Example C09_example_repeated_member :
+  let a := IIri false ex_alice in let b := ex_note ex_bob [] in
+  ieq a b = Ok false /\ ieq b a = Ok false /\
+  ieq (IItems false (Some [a; a])) (IItems false (Some [a; b])) = Ok false /\
+  ieq (IItems false (Some [a; b])) (IItems false (Some [b; a])) = Ok true /\
+  ieq (IItems false (Some [a; a])) (IItems true (Some [a; a])) = Ok true /\
+  ieq (IObj true KObject (ex_to [a; a])) (IObj true KObject (ex_to [a; b])) = Ok false /\
+  ieq (IObj true KObject (ex_to [a; b])) (IObj true KObject (ex_to [a; a])) = Ok false /\
+  ieq (IObj true KObject (ex_to [a; a])) (IObj false KObject (ex_to [a; a])) = Ok true.
+Proof. cbv zeta. repeat split; vm_compute; reflexivity. Qed.
+
+Theorem C09_list_repeated_member_pinned_refuted : exists a b,
+  ieq a b = Ok false /\ ieq b a = Ok false /\
+  ieq_list_contains_pinned (IItems false (Some [a; a])) (IItems false (Some [a; b])) = Ok true /\
+  ieq_list_contains_pinned (IItems false (Some [a; b])) (IItems false (Some [a; a])) = Ok false /\
+  ieq_list_contains_pinned (IItems false (Some [a; b; a])) (IItems false (Some [a; b; b])) = Ok true /\
+  ieq_list_contains_pinned (IObj true KObject (ex_to [a; a])) (IObj true KObject (ex_to [a; b])) = Ok true /\
+  ieq (IObj true KObject (ex_to [a; a])) (IObj true KObject (ex_to [a; b])) = Ok false.
+Proof. exists (IIri false ex_alice), (IIri false ex_bob). repeat split; vm_compute; reflexivity. Qed.
+Theorem C09_list_repeated_member_u_pinned_refuted : exists a b,
+  ieq_u a b = Ok false /\ ieq_u b a = Ok false /\
+  EqGI.ieq_list_contains_pinned iri_equ (IItems false (Some [a; a])) (IItems false (Some [a; b])) = Ok true /\
+  EqGI.ieq_list_contains_pinned iri_equ (IObj true KObject (ex_to [a; a])) (IObj true KObject (ex_to [a; b])) = Ok true /\
+  ieq_u (IObj true KObject (ex_to [a; a])) (IObj true KObject (ex_to [a; b])) = Ok false.
+Proof.
+  exists (IIri false (B "https://example.com/users/%41lice")), (IIri false (B "https://example.com/users/%2541lice")).
+  repeat split; vm_compute; reflexivity.
+Qed.
+
+(* the table condition accepts the body of ItemCollection.Equals as it is now (C09_itemseq_table) and refuses the body
+   with the containment loop: a source that goes back to `if !w.Contains(it)` breaks the obligation, and the
+   diagnosis names the function and the statement (5: the closure handed to OnItemCollection) *)
+Example C09_itemseq_table_rejects_contains_loop :
+  let old := map (fun g => if bytes_eqb (gf_name g) n_ic_equals then m_ic_equals_contains_pinned else g) gen_itemseq_fns in
+  itemseq_table_ok old = false /\
+  option_map (fun p => (fst p, option_map (fun q => fst (fst q)) (snd p))) (first_bad_fn old) = Some (n_ic_equals, Some 5) /\
+  items_equal_t old gen_equals_table 20 (IItems false (Some [IIri false ex_alice; IIri false ex_alice]))
+                                        (IItems false (Some [IIri false ex_alice; IIri false ex_bob])) = Ok true /\
+  items_equal_gen 20 (IItems false (Some [IIri false ex_alice; IIri false ex_alice]))
+                     (IItems false (Some [IIri false ex_alice; IIri false ex_bob])) = Ok false.
+Proof. cbv zeta. repeat split; vm_compute; reflexivity. Qed.
